@@ -113,22 +113,219 @@ def gen_warm_case(rng, kind, thorough=False, loose=False):
             "presence_kinds": [p[1] for p in pres]}
 
 
-def gen_norm_case(rng, thorough=False):
-    """A configuration with grafting that starts preconditioning early; no momentum, no decoupled decay, so the parameter
-    delta of a block is -lr x (its search direction)."""
+def gen_norm_case(rng, thorough=False, variant=None):
+    """A configuration with grafting that starts preconditioning early.  Default: no momentum, no decoupled decay, so the parameter
+    delta of a block is -lr x (its search direction).  Variants (quantifier audit): `momentum` / `decoupled` keep C01's momentum,
+    dampening, Nesterov resp. decoupled decay (RunTorch.block_norm_ok recovers the rescaled direction from the momentum buffers
+    resp. subtracts wd x w); `zero`: present gradients that are exactly zero; `tiny`: gradients scaled by 2^-17."""
     c = c01.gen_cfg(rng)
     c["graft"] = rng.choice(["sgd", "adagrad", "rmsprop", "adam"])
-    c["momentum"], c["dampening"], c["nesterov"] = 0.0, 0.0, False
-    if c["wd"] != 0.0:
+    if variant == "momentum":
+        c["momentum"] = rng.choice([0.5, 0.25])
+    else:
+        c["momentum"], c["dampening"], c["nesterov"] = 0.0, 0.0, False
+    if variant == "decoupled":
+        c["wd"], c["decoupled"] = rng.choice([0.25, 0.125]), True
+    elif c["wd"] != 0.0:
         c["decoupled"] = False
     c["lr"] = rng.choice(LRS)
     c["start"] = rng.choice([1, 2, 3, -1])
     shapes = [rng.choice(c01.SHAPES + [[4, 6], [2, 3, 4]]) for _ in range(rng.randint(1, 3))]
     nsteps = rng.randint(4, 8 if thorough else 6)
     pres = c01.gen_presence(rng, len(shapes), nsteps)
+    if variant in ("zero", "tiny", "momentum", "decoupled"):
+        pres = ([[True] * len(shapes) for _ in range(nsteps)], ["all"] * len(shapes)) if rng.random() < 0.6 else pres
     steps = [{"present": [pres[0][s]], "gseed": rng.randrange(1 << 30), "edits": None} for s in range(nsteps)]
-    return c01.condition_guard({"groups": [{"cfg": c, "shapes": shapes}], "init_seed": rng.randrange(1 << 30), "steps": steps,
-                                "presence_kinds": [pres[1]]})
+    case = {"groups": [{"cfg": c, "shapes": shapes}], "init_seed": rng.randrange(1 << 30), "steps": steps, "presence_kinds": [pres[1]],
+            "variant": variant or "plain"}
+    if variant == "zero":
+        for s in steps[1:]:
+            cands = [[0, pi] for pi, v in enumerate(s["present"][0]) if v]
+            if cands and rng.random() < 0.6:
+                s["zero"] = [rng.choice(cands)]
+    if variant == "tiny":
+        case["gscale"] = 2.0 ** -17
+    return c01.condition_guard(case)
+
+
+def merged_dims(shape, thr):
+    """Distributor's merge of small dimensions (classification of inputs only)."""
+    sq = [d for d in shape if d != 1] or [1]
+    out = [sq[0]]
+    for d in sq[1:]:
+        if out[-1] * d <= thr:
+            out[-1] *= d
+        else:
+            out.append(d)
+    return out
+
+
+def nonviewable_layout(case):
+    """Does some parameter get a gradient whose (permuted) layout cannot be viewed with the merged dims?  Computed from the input."""
+    import torch
+    if not case.get("noncontig"):
+        return False
+    for gi, g in enumerate(case["groups"]):
+        c = optrun.effective_cfg(case, gi)
+        if not c["merge"]:
+            continue
+        for sh in g["shapes"]:
+            if 0 in sh or len(sh) == 0:
+                continue
+            t = strided_like(torch.zeros(tuple(sh)))
+            try:
+                t.view(tuple(merged_dims(sh, c["max_dim"])))
+            except RuntimeError:
+                return True
+    return False
+
+
+def single_group(case):
+    case["groups"] = case["groups"][:1]
+    for s in case["steps"]:
+        s["present"] = s["present"][:1]
+    case["presence_kinds"] = case["presence_kinds"][:1]
+    return case
+
+
+def gen_targeted(rng, reps=1):
+    """Input classes that the property's quantifier names or plainly allows and that the random stream reaches rarely or never
+    (quantifier audit).  Every case carries `tags`; the evidence counts them."""
+    out = []
+
+    def add(case, *tags):
+        case["tags"] = list(tags)
+        out.append(case)
+
+    for _ in range(reps):
+        for kind in ("adam", "adamw"):
+            for _ in range(2):                                  # Adam / AdamW with beta1 = 0 (no first-moment state on Shampoo's side)
+                c = gen_warm_case(rng, kind)
+                c0 = c["groups"][0]["cfg"]
+                c0["betas"] = (0.0, c0["betas"][1])
+                for g in c["groups"][1:]:
+                    g["overrides"].pop("betas", None)
+                    g["overrides"].pop("beta3", None)
+                add(c, "adam_beta1_zero")
+            c = gen_warm_case(rng, kind)                        # beta3 given explicitly (= beta1) instead of -1
+            c["groups"][0]["cfg"]["beta3"] = c["groups"][0]["cfg"]["betas"][0]
+            add(c, "beta3_explicit_equal_beta1")
+        for kind in KINDS:                                      # PRESENT gradients that are exactly zero
+            c = gen_warm_case(rng, kind)
+            for si, s in enumerate(c["steps"]):
+                cands = [[gi, pi] for gi, row in enumerate(s["present"]) for pi, v in enumerate(row) if v]
+                if cands and (si == 0 or rng.random() < 0.5):
+                    s["zero"] = [rng.choice(cands)] if rng.random() < 0.6 else cands
+            add(c, "present_zero_gradient")
+        for kind in KINDS:                                      # tiny gradients (exact-zero tests vs tolerance tests, eps dominating)
+            c = gen_warm_case(rng, kind)
+            c["gscale"] = 2.0 ** -17
+            add(c, "tiny_gradients_2^-17")
+        for kind in ("sgd", "rmsprop", "adam"):
+            c = gen_warm_case(rng, kind)
+            c["gscale"] = 2.0 ** 8
+            add(c, "large_gradients_2^8")
+        for kind in KINDS:                                      # gradients with a non-default memory layout
+            c = gen_warm_case(rng, kind)
+            c["noncontig"] = True
+            for g in c["groups"]:                               # order-0 parameters have only one layout
+                g["shapes"] = [sh if len(sh) >= 1 else [5] for sh in g["shapes"]]
+            add(c, "grad_layout_nondefault_any_merge_setting")
+        for kind in ("sgd", "adam"):
+            c = single_group(gen_warm_case(rng, kind))
+            c["noncontig"] = True
+            c["groups"][0]["cfg"].update(merge=True, max_dim=1024)
+            c["groups"][0]["shapes"] = [rng.choice([[3, 4], [2, 3], [3, 3, 3]])]
+            for s in c["steps"]:
+                s["present"] = [[True]]
+            add(c, "grad_layout_nondefault_nonviewable_with_merge")
+        for kind in ("sgd", "adagrad", "rmsprop"):              # two equal-shaped parameters, same number of gradients, different pattern
+            c = single_group(gen_warm_case(rng, kind))
+            sh = rng.choice([[3, 4], [5], [2, 3, 2]])
+            c["groups"][0]["shapes"] = [sh, sh]
+            for si, s in enumerate(c["steps"]):
+                s["present"] = [[si % 2 == 0, si % 2 == 1]]
+            c["presence_kinds"] = [["alt", "flip"]]
+            add(c, "twin_equal_shaped_params_alternating")
+        for kind in KINDS:                                      # twin parameter groups with identical hyperparameters, alternating
+            c = gen_warm_case(rng, kind)
+            sh = c["groups"][0]["shapes"]
+            c["groups"] = [c["groups"][0], {"overrides": {}, "shapes": list(sh)}]
+            for si, s in enumerate(c["steps"]):
+                s["present"] = [[si % 2 == 0] * len(sh), [si % 2 == 1] * len(sh)]
+            c["presence_kinds"] = [["group-alt"] * len(sh), ["group-flip"] * len(sh)]
+            add(c, "twin_groups_identical_hyperparameters_alternating")
+        for kind in ("sgd", "rmsprop", "adamw"):                # another DistributedShampoo alive and stepping in the same process
+            c = gen_warm_case(rng, kind)
+            c["twin_instance"] = True
+            add(c, "second_optimizer_instance_same_process")
+        for pd, qd in (("f32", "f32"), ("f32", "f64"), ("f64", "f32"), ("bf16", "f32"), ("bf16", "bf16"), ("f16", "f32")):
+            for kind in rng.sample(KINDS, 2):                   # parameter / preconditioner dtype pairings
+                c = gen_warm_case(rng, kind)
+                c["pdtype"], c["qdtype"] = pd, qd
+                if pd in ("bf16", "f16"):                       # keep the rounding noise of the 16-bit formats well inside DTYPE_TOL
+                    c["steps"] = c["steps"][:5]
+                    c["groups"][0]["cfg"]["lr"] = rng.choice([0.125, 0.03125, 0.0625])
+                    c["groups"][0]["cfg"]["geps"] = rng.choice([1e-3, 0.125])
+                    for g in c["groups"][1:]:
+                        g["overrides"].pop("lr", None)
+                add(c, f"dtype_param_{pd}_precond_{qd}")
+        c = gen_warm_case(rng, rng.choice(["adagrad", "rmsprop", "adam"]))       # eps underflows the storage dtype: 0/0 on both sides
+        c["pdtype"], c["qdtype"] = "f16", "f32"
+        c["groups"][0]["cfg"]["geps"] = 1e-8
+        c["steps"] = c["steps"][:4]
+        add(c, "graft_eps_underflows_storage_dtype_f16")
+        for kind in KINDS:                                      # the history crosses start_preconditioning_step: the warm-up prefix is compared
+            c = single_group(gen_warm_case(rng, kind))
+            n = rng.randint(4, 6)
+            while len(c["steps"]) < n:
+                c["steps"].append({"present": None, "gseed": rng.randrange(1 << 30), "edits": None})
+            for s in c["steps"]:
+                s["present"] = [[True] * len(c["groups"][0]["shapes"])]
+            st = rng.choice([2, 3, 4])
+            c["groups"][0]["cfg"]["start"] = st
+            c["groups"][0]["cfg"]["freq"] = rng.choice([1, 2])
+            c["compare_steps"] = st - 1
+            add(c01.condition_guard(c), "history_crosses_start_prefix_compared")
+        for kind, lr in (("sgd", 0.0), ("adam", 0.0), ("sgd", 2.0), ("adagrad", 8.0), ("adamw", 2.0)):
+            c = gen_warm_case(rng, kind)
+            c["groups"][0]["cfg"]["lr"] = lr
+            add(c, "lr_zero" if lr == 0.0 else "lr_large")
+        for kind in ("adagrad", "adam"):
+            c = gen_warm_case(rng, kind)
+            c["groups"][0]["cfg"]["geps"] = 1.0
+            add(c, "graft_eps_large_1.0")
+        for kind in ("sgd", "adamw"):                           # parameters without elements
+            c = single_group(gen_warm_case(rng, kind))
+            c["groups"][0]["shapes"] = [[0], [2, 0, 3], [3, 2]]
+            for s in c["steps"]:
+                s["present"] = [[True, True, True]]
+            add(c, "empty_parameter")
+        for kind in ("rmsprop", "adamw"):                       # many blocks per parameter
+            c = single_group(gen_warm_case(rng, kind))
+            c["groups"][0]["shapes"] = [[16, 6]]
+            c["groups"][0]["cfg"].update(max_dim=2, merge=False)
+            for s in c["steps"]:
+                s["present"] = [[True]]
+            add(c, "many_blocks_48")
+        for kind in ("sgd", "adam"):                            # shortest and a longer history (dyadic powers stay exact in binary32 up to 12 steps for .5/.75)
+            c = gen_warm_case(rng, kind)
+            c["steps"] = c["steps"][:1]
+            add(c, "single_step_history")
+            c = single_group(gen_warm_case(rng, kind))
+            c["groups"][0]["cfg"].update(betas=((0.75 if kind == "adam" else 0.0), 1.0), gbeta2=0.5, start=math.inf)
+            while len(c["steps"]) < 12:
+                c["steps"].append({"present": [[rng.random() < 0.8 or kind == "adam"] * len(c["groups"][0]["shapes"])], "gseed": rng.randrange(1 << 30), "edits": None})
+            add(c, "long_history_12_steps")
+    return out
+
+
+def model_tie_applicable(case):
+    """(ii) runs the case through optrun.run_case, which knows gscale / zero gradients but not these harness-side variations."""
+    if set(case.get("tags", [])) & {"many_blocks_48", "long_history_12_steps", "single_step_history", "lr_large", "graft_eps_large_1.0"}:
+        return False        # (ii) is C01's tie; these classes only vary what the direct comparison (iii) looks at
+    return not (case.get("noncontig") or case.get("twin_instance") or case.get("pdtype", "f64") != "f64" or case.get("qdtype", "f64") != "f64"
+                or any(0 in sh for g in case["groups"] for sh in g["shapes"]))
 
 
 # ------------------------------------------------------------------------------------------ the two optimizers side by side
@@ -158,7 +355,7 @@ def torch_state_vectors(kind, topt, p, hyper):
     """(state tensors as the model lists them, own step counter); a parameter never updated has no state yet."""
     st = topt.state.get(p, {})
     z = [0.0] * p.numel()
-    f = lambda t: t.detach().reshape(-1).tolist()  # noqa
+    f = lambda t: t.detach().double().reshape(-1).tolist()  # noqa
     if kind == "sgd":
         b = st.get("momentum_buffer")
         return ([] if b is None else [f(b)]), 0
@@ -172,38 +369,81 @@ def torch_state_vectors(kind, topt, p, hyper):
     return ([f(st["exp_avg"]), f(st["exp_avg_sq"])] if st else [z, z]), (int(st["step"].item()) if st else 0)
 
 
+DTYPES = {"f64": "float64", "f32": "float32", "bf16": "bfloat16", "f16": "float16"}
+# tolerance of the direct comparison when the PARAMETER dtype is not binary64: both sides then round every tensor operation to the
+# storage dtype, in a different operation order (unit roundoff 6e-8 / 3.9e-3 / 4.9e-4; measured worst deviations x >= 8)
+DTYPE_TOL = {"f32": 2e-5, "bf16": 0.15, "f16": 0.03}
+
+
+def strided_like(g):
+    """The same values with a non-default memory layout (what autograd hands out after a transpose / expand / slice)."""
+    import torch
+    if g.dim() >= 2 and g.shape[0] > 1 and g.shape[-1] > 1:
+        return g.transpose(0, -1).contiguous().transpose(0, -1)          # permuted strides
+    if g.dim() >= 1 and g.numel() > 1:
+        return torch.stack([g, g + 1.0], dim=-1)[..., 0]                 # innermost stride 2
+    return g
+
+
 def run_pair(case):
-    """DistributedShampoo and torch.optim on the same parameters and gradients."""
+    """DistributedShampoo and torch.optim on the same parameters and gradients.
+    Optional case keys: pdtype / qdtype (parameter / preconditioner dtype), noncontig (gradients with a non-default layout),
+    twin_instance (a second, unrelated DistributedShampoo alive and stepping in the same process), gscale and per-step `zero`
+    (handled by optrun.set_grads: power-of-two gradient scale, present-but-zero gradients)."""
     import torch
     logging.disable(logging.CRITICAL)
-    params = optrun.build_params(case)
+    pd = getattr(torch, DTYPES[case.get("pdtype", "f64")])
+    qd = getattr(torch, DTYPES[case.get("qdtype", "f64")])
+    params = optrun.build_params(case, dtype=pd)
     tparams = [[torch.nn.Parameter(p.detach().clone()) for p in ps] for ps in params]
-    opt = optrun.build_optimizer(case, params)
+    opt = optrun.build_optimizer(case, params, dtype=qd)
     topt = build_torch(case, tparams)
+    decoy = None
+    if case.get("twin_instance"):
+        dparams = [[torch.nn.Parameter(p.detach().clone()) for p in ps] for ps in params]
+        decoy = (dparams, optrun.build_optimizer(case, dparams, dtype=qd))
     nblocks = sum(len(optrun.group_handles(opt, gi)[0]) for gi in range(len(params)))
-    flat = lambda pss: [x for ps in pss for p in ps for x in p.detach().reshape(-1).tolist()]  # noqa
-    per_param = [[{"w0": p.detach().reshape(-1).tolist(), "grads": [], "traj": []} for p in ps] for ps in tparams]
+    f64 = lambda t: t.detach().to(torch.float64).reshape(-1).tolist()  # noqa
+    flat = lambda pss: [x for ps in pss for p in ps for x in f64(p)]  # noqa
+    per_param = [[{"w0": f64(p), "grads": [], "traj": []} for p in ps] for ps in tparams]
     sh_traj, t_traj = [], []
+    seen = {"zero_present": 0, "noncontig": 0}
     for step in case["steps"]:
         optrun.set_grads(case, params, step)
         for ps, tps in zip(params, tparams):
             for p, tp in zip(ps, tps):
+                if p.grad is not None and case.get("noncontig"):
+                    p.grad = strided_like(p.grad)
+                    seen["noncontig"] += int(not p.grad.is_contiguous())
                 tp.grad = None if p.grad is None else p.grad.detach().clone()
+                if p.grad is not None and p.numel() > 0 and not bool(p.grad.any()):
+                    seen["zero_present"] += 1
+        if decoy is not None:            # the other instance steps first, on other gradients
+            for ps, dps in zip(params, decoy[0]):
+                for p, dp in zip(ps, dps):
+                    dp.grad = None if p.grad is None else -2.0 * p.grad.detach().clone() + 0.25
+            decoy[1].step()
         opt.step()
         topt.step()
         sh_traj.append(flat(params))
         t_traj.append(flat(tparams))
         for gi, tps in enumerate(tparams):
             for pi, tp in enumerate(tps):
-                per_param[gi][pi]["grads"].append(None if tp.grad is None else tp.grad.detach().reshape(-1).tolist())
-                per_param[gi][pi]["traj"].append(tp.detach().reshape(-1).tolist())
+                per_param[gi][pi]["grads"].append(None if tp.grad is None else f64(tp.grad))
+                per_param[gi][pi]["traj"].append(f64(tp))
     for gi, tps in enumerate(tparams):
         hy = torch_hyper(case["torch"], optrun.effective_cfg(case, gi))
         for pi, tp in enumerate(tps):
             per_param[gi][pi]["state"], per_param[gi][pi]["n"] = torch_state_vectors(case["torch"], topt, tp, hy)
             per_param[gi][pi]["hyper"] = hy
     return {"shampoo": sh_traj, "torch": t_traj, "per_param": per_param, "nblocks": nblocks,
-            "nparams": sum(len(ps) for ps in params)}
+            "nparams": sum(len(ps) for ps in params), "seen": seen}
+
+
+def case_tol(case):
+    if case.get("pdtype", "f64") != "f64":
+        return DTYPE_TOL[case["pdtype"]]
+    return TOL_LOOSE if case.get("loose") else TOL_EXACT
 
 
 def close(a, b, tol):
@@ -220,8 +460,9 @@ def py_disagrees(case):
         r = run_pair(case)
     except Exception:  # noqa
         return None
-    tol = TOL_LOOSE if case.get("loose") else TOL_EXACT
-    for si, (a, b) in enumerate(zip(r["shampoo"], r["torch"])):
+    tol = case_tol(case)
+    n = case.get("compare_steps", len(r["shampoo"]))
+    for si, (a, b) in enumerate(zip(r["shampoo"][:n], r["torch"][:n])):
         if not all(close(x, y, tol) for x, y in zip(a, b)):
             dev = max(abs(x - y) / max(1.0, abs(x), abs(y)) for x, y in zip(a, b))
             return si, dev
@@ -247,12 +488,13 @@ def cvecs(vs) -> str:
 
 def case_term(case, r) -> str:
     per = []
-    for g in r["per_param"]:
+    # the binary64 torch model is compared with torch.optim only when torch.optim itself runs in binary64
+    for g in (r["per_param"] if case.get("pdtype", "f64") == "f64" else []):
         for p in g:
             hist = "[" + ";".join("None" if x is None else f"(Some {cvec(x)})" for x in p["grads"]) + "]"
             per.append(f"(torch_ok {ctopt(case['torch'], p['hyper'])} {cvec(p['w0'])} {hist} {cvecs(p['traj'])} {cvecs(p['state'])} {optrun.cZ(p['n'])})")
-    tol = TOL_LOOSE if case.get("loose") else TOL_EXACT
-    return f"(case_ok [{';'.join(per)}] {fl(tol)} {cvecs(r['shampoo'])} {cvecs(r['torch'])})"
+    n = case.get("compare_steps", len(r["shampoo"]))      # histories that cross start_preconditioning_step: the warm-up prefix
+    return f"(case_ok [{';'.join(per)}] {fl(case_tol(case))} {cvecs(r['shampoo'][:n])} {cvecs(r['torch'][:n])})"
 
 
 HEADER = """From Coq Require Import ZArith List Bool String PrimFloat.
@@ -303,7 +545,7 @@ def pair_worker(case):
         r = run_pair(case)
     except Exception as e:  # noqa
         return {"error": f"{type(e).__name__}: {e}"[:300]}
-    return {"term": case_term(case, r), "nblocks": r["nblocks"], "nparams": r["nparams"],
+    return {"term": case_term(case, r), "nblocks": r["nblocks"], "nparams": r["nparams"], "seen": r["seen"],
             "updates": sum(1 for g in r["per_param"] for p in g for x in p["grads"] if x is not None)}
 
 
@@ -436,16 +678,29 @@ def run(ck: Check) -> None:
     for kind in KINDS:
         warm += [gen_warm_case(ck.rng, kind, thorough) for _ in range(per_kind)]
     warm += [gen_warm_case(ck.rng, ck.rng.choice(KINDS), thorough, loose=True) for _ in range(n_loose)]
+    n_random = len(warm)
+    warm += gen_targeted(ck.rng, reps=4 if thorough else 1)          # quantifier audit: classes the random stream does not reach
     norm_cases = [gen_norm_case(ck.rng, thorough) for _ in range(n_norm)]
+    for variant in ("momentum", "decoupled", "zero", "tiny"):
+        norm_cases += [gen_norm_case(ck.rng, thorough, variant) for _ in range(40 if thorough else 7)]
 
+    import time
+    phases, t_last = {}, [time.time()]
+
+    def lap(name):
+        phases[name] = round(time.time() - t_last[0], 1)
+        t_last[0] = time.time()
+    lap("generation")
     # (i) + (iii): both optimizers side by side; compared by coqc
     pres = pool_map(pair_worker, warm)
+    lap("pair_runs")
     idx = [i for i, r in enumerate(pres) if "error" not in r]
     verdicts = eval_terms(ck, [pres[i]["term"] for i in idx], "c02p")
     pair_v = {i: v for i, v in zip(idx, verdicts)}
+    lap("pair_coqc")
 
     # (ii): Shampoo vs the Optimizer.v model on the same warm-up cases and on the post-start cases (shared with C01)
-    sub = warm if thorough else [c for j, c in enumerate(warm) if j < ncorpus or j % 4 != 3]     # quick: 3 of 4, every target
+    sub = [c for j, c in enumerate(warm) if model_tie_applicable(c) and (thorough or j < ncorpus or j >= n_random or j % 2 == 0)]     # quick: every second random case (every target kind), all targeted ones
     res2, per2 = c01.evaluate(ck, sub + norm_cases, tag="c02m")
     model_bad = []
     for ci, pc in enumerate(per2):
@@ -453,6 +708,7 @@ def run(ck: Check) -> None:
             if "F" in v:
                 model_bad.append((ci, row["step"], row["group"], c01.describe(v)))
 
+    lap("model_tie_(ii)")
     # norm transfer after the start step
     nres = pool_map(norm_worker, norm_cases)
     nidx, nterms = [], []
@@ -461,6 +717,7 @@ def run(ck: Check) -> None:
             nidx.append((ci, row))
             nterms.append(row["term"])
     nverd = eval_terms(ck, nterms, "c02n", show="show_bools")
+    lap("norm_phase")
 
     # ---- verdicts
     hist = {"target": {}, "class": {"exact": 0, "loose": 0}, "groups": {}, "orders": {}, "presence": {}, "max_dim": {}, "merge": {},
@@ -468,10 +725,17 @@ def run(ck: Check) -> None:
     ctor_err = 0
     nontrivial = 0
     bad_model_b, bad_impl = [], []
+    audit, step_raises = {}, []
     for i, case in enumerate(warm):
+        for t in case.get("tags", []):
+            audit[t] = audit.get(t, 0) + 1
         if "error" in pres[i]:
+            if case.get("tags"):
+                step_raises.append((i, pres[i]["error"]))     # a targeted input class on which an optimizer raised
             ctor_err += 1
             continue
+        for k, n in pres[i]["seen"].items():
+            audit["measured:" + k] = audit.get("measured:" + k, 0) + int(n > 0)
         c0 = case["groups"][0]["cfg"]
         hist["target"][case["torch"]] = hist["target"].get(case["torch"], 0) + 1
         hist["class"]["loose" if case.get("loose") else "exact"] += 1
@@ -504,6 +768,32 @@ def run(ck: Check) -> None:
         if "F" in v:
             norm_bad.append((ci, row, v))
     norm_nontrivial = len({ci for (ci, row) in nidx})
+    for (ci, row) in nidx:
+        k = "norm_phase:" + norm_cases[ci].get("variant", "plain")
+        audit[k + ":checked_steps"] = audit.get(k + ":checked_steps", 0) + 1
+    for k0, key in (("adam", "norm_phase:adamw_target(adam graft + decoupled decay):cases"),):
+        audit[key] = sum(1 for c in norm_cases if c["groups"][0]["cfg"]["graft"] == k0 and c["groups"][0]["cfg"]["decoupled"] and c["groups"][0]["cfg"]["wd"] != 0.0)
+    audit["random_stream:adam_family_group_idle_steps"] = sum(1 for c in warm[:n_random] if c["torch"] in ("adam", "adamw") and any(not any(r) for s in c["steps"] for r in s["present"]))
+    audit["random_stream:absent_gradient_patterns"] = sum(1 for c in warm[:n_random] if any(not all(r) for s in c["steps"] for r in s["present"]))
+    audit["random_stream:two_groups"] = sum(1 for c in warm[:n_random] if len(c["groups"]) == 2)
+    audit["random_stream:last_step_is_start_minus_1_at_most"] = sum(1 for c in warm[:n_random] if c["groups"][0]["cfg"]["start"] == len(c["steps"]) + 1)
+    audit["random_stream:blocked_parameters"] = hist["blocks_per_param>1"]
+    audit["random_stream:order_0_or_size1_dims"] = sum(1 for c in warm[:n_random] for g in c["groups"] for sh in g["shapes"] if len(sh) == 0 or 1 in sh)
+    audit["random_stream:loose_realistic_hyperparameters"] = hist["class"]["loose"]
+
+    # an optimizer raised on a targeted input class: torch.optim steps on every such input, so this is DistributedShampoo not
+    # following torch.optim's trajectory (run_pair builds and steps both; the message says which)
+    seen = set()
+    for i, err in step_raises:
+        case = warm[i]
+        sig = "C02:nonviewable-grad-layout-raises" if (nonviewable_layout(case) and "view size is not compatible" in err) else f"C02:raises:{case['tags'][0]}"
+        if sig in seen:
+            continue
+        seen.add(sig)
+        ck.report(sig, f"in warm-up, on the input class {case['tags']} stepping DistributedShampoo (grafting {case['torch']}) next to torch.optim.{case['torch']} "
+                       f"raises {err[:160]} - torch.optim alone steps on this input",
+                  {"kind": "property-fails", "part": "warmup-raises", "case": jsonable(case), "error": err,
+                   "predicate": "DistributedShampoo.step() completes and yields torch.optim's trajectory"})
 
     # (iii) disagrees: a failing input of the real code
     seen = set()
@@ -569,7 +859,20 @@ def run(ck: Check) -> None:
         "shampoo_vs_torch_optim_disagreements": len(bad_impl), "torch_model_vs_torch_optim_disagreements": len(bad_model_b),
         "shampoo_model_steps": nsteps2, "shampoo_model_disagreeing_steps": len(model_bad),
         "norm_cases": len(norm_cases), "norm_steps_checked": len(nterms), "norm_disagreements": len(norm_bad),
-        "tolerances": {"torch_model": 1e-9, "shampoo_model": 1e-9, "shampoo_vs_torch_exact_class": TOL_EXACT, "loose_class": TOL_LOOSE, "norm": 1e-9},
+        "phase_seconds": phases,
+        "quantifier_audit": dict(sorted(audit.items())),
+        "not_exercised": {
+            "dampening != 0 (SGD/RMSprop), Shampoo beta1 != 0 with SGD/Adagrad/RMSprop grafting, beta3 != beta1, use_bias_correction=False with Adam grafting, grafting beta2 = 1 for RMSprop/Adam, decoupled decay with SGD/Adagrad/RMSprop grafting, Nesterov with RMSprop": "outside `the range where the two formulations are mathematically identical` (dampening: C02_warmup_sgd_dampening_refuted; the others change the formula on one side only)",
+            "Adam/AdamW with a parameter absent while its group steps": "excluded by the property's quantifier (own update count = group step count)",
+            "non-dyadic betas / lr not binary32-representable at tolerance 1e-12": "Shampoo's float32 lr and bias-correction scalars then differ from torch's binary64 ones by up to 3e-5 relative; covered only by the loose class (2e-5)",
+            "value-level tie of the Coq models for non-binary64 parameters": "the models are executed in binary64; float32/bfloat16/float16 parameters are compared implementation-vs-torch.optim only, at dtype-scaled tolerances (2e-5 / 0.15 / 0.03)",
+            "gradient zero on ONE block of a multi-block parameter, structured (rank-1, dead-coordinate) gradients in the norm phase": "optrun.set_grads only zeroes whole parameters; singular / structured factor matrices are C10-C12's subject, zero blocks inside a parameter C04/C05's",
+            "norm transfer with non-binary64 dtypes": "the P_shampoo / P_graft reference is the binary64 Coq model; inverse roots amplify storage rounding beyond any useful tolerance",
+            "norm transfer with dampening = 1": "division by 1 - dampening when recovering the direction from the momentum buffers",
+            "distributed (multi-rank) configurations, PT2-compiled steps, checkpoint resume inside warm-up": "C06-C08, C18, C09",
+            "parameters above a few dozen elements / 2 GiB / alignment classes": "no size-dependent code path in the grafting step other than blocking (C05, C14)",
+        },
+        "tolerances": {"torch_model": 1e-9, "shampoo_model": 1e-9, "shampoo_vs_torch_exact_class": TOL_EXACT, "loose_class": TOL_LOOSE, "norm": 1e-9, "non_f64_parameter_dtype": DTYPE_TOL},
     })
     ck.assumptions += ["binary64 parameters; exact class: lr binary32-representable, betas in {.5,.75,.875}, <= 8 steps (Shampoo's float32 scalars exact)",
                        "SGD/RMSprop: dampening = 0 (guard of the theorem; refuted otherwise); Adam/AdamW: a group's parameters have gradients together",
@@ -587,6 +890,14 @@ def replay(obj) -> bool:
                 lr = r["cfg"]["lr"]
                 print("block", b["dims"], "||delta||/lr =", math.sqrt(sum((x - y) ** 2 for x, y in zip(a["w"], b["w"]))) / lr)
         return True
+    if obj.get("part") == "warmup-raises":
+        try:
+            run_pair(case)
+        except Exception as e:  # noqa
+            print("stepping DistributedShampoo next to torch.optim." + case["torch"], "raises", type(e).__name__ + ":", str(e)[:200])
+            return True
+        print("both optimizers step on this input")
+        return False
     f = py_disagrees(case)
     print("DistributedShampoo vs torch.optim." + case["torch"], "deviates at step %d by %.3g" % f if f else "agree")
     return f is not None
